@@ -98,7 +98,7 @@ fn small_enum(name: &str, bits: u32, plain: bool) -> EnumDecl {
         for d in 0..n {
             variants.push(Variant { name: format!("V{}", d), disc: Disc::Lit { value: d, radix: 10, underscore: false }, cfg: Cfg::None, style: 0 });
         }
-        EnumDecl { name: name.into(), bits, variants, exhaustive: Exh::True, colon: false, qualified: false }
+        EnumDecl { name: name.into(), bits, variants, exhaustive: Exh::True, colon: false, qualified: false, args_swapped: false }
     } else {
         let m = n - 1;
         let mut ds = vec![0u128, m, m >> 1];
@@ -110,7 +110,7 @@ fn small_enum(name: &str, bits: u32, plain: bool) -> EnumDecl {
         for (k, d) in ds.iter().enumerate() {
             variants.push(Variant { name: format!("V{}", k), disc: Disc::Lit { value: *d, radix: 16, underscore: false }, cfg: Cfg::None, style: 0 });
         }
-        EnumDecl { name: name.into(), bits, variants, exhaustive: Exh::False, colon: false, qualified: false }
+        EnumDecl { name: name.into(), bits, variants, exhaustive: Exh::False, colon: false, qualified: false, args_swapped: false }
     }
 }
 
@@ -657,6 +657,7 @@ pub fn enum_corpus(tier: Tier, seed: u64) -> Vec<(usize, EnumDecl)> {
                 exhaustive: if d == 0 { Exh::False } else { Exh::Omitted },
                 colon: false,
                 qualified: false,
+                args_swapped: n % 2 == 1,
             });
         }
         if n <= 6 {
@@ -668,19 +669,19 @@ pub fn enum_corpus(tier: Tier, seed: u64) -> Vec<(usize, EnumDecl)> {
                 if variants.is_empty() {
                     continue;
                 }
-                v.push(EnumDecl { name: "E".into(), bits: n, variants, exhaustive: Exh::False, colon: false, qualified: false });
+                v.push(EnumDecl { name: "E".into(), bits: n, variants, exhaustive: Exh::False, colon: false, qualified: false, args_swapped: false });
             }
             // conditional with two variants sharing a discriminant under complementary cfgs, and all values listed
             let mut variants: Vec<Variant> = (0..=m)
                 .map(|d| Variant { name: format!("V{}", d), disc: Disc::Lit { value: d, radix: 10, underscore: false }, cfg: if d % 2 == 1 { Cfg::Always } else { Cfg::None }, style: (d % 4) as u8 })
                 .collect();
             variants.push(Variant { name: "Off".into(), disc: Disc::Lit { value: m, radix: 10, underscore: false }, cfg: Cfg::Never, style: 0 });
-            v.push(EnumDecl { name: "E".into(), bits: n, variants: variants.clone(), exhaustive: Exh::Conditional, colon: false, qualified: false });
+            v.push(EnumDecl { name: "E".into(), bits: n, variants: variants.clone(), exhaustive: Exh::Conditional, colon: false, qualified: false, args_swapped: false });
             // the disabled twin declared *before* the enabled variant with the same discriminant
             let off = variants.pop().unwrap();
             variants.insert(0, Variant { disc: Disc::Lit { value: m / 2, radix: 10, underscore: false }, ..off.clone() });
             variants.insert((m / 2) as usize + 1, Variant { name: "Off2".into(), disc: Disc::Lit { value: m / 2, radix: 16, underscore: false }, cfg: Cfg::Never, style: 0 });
-            v.push(EnumDecl { name: "E".into(), bits: n, variants, exhaustive: Exh::Conditional, colon: false, qualified: false });
+            v.push(EnumDecl { name: "E".into(), bits: n, variants, exhaustive: Exh::Conditional, colon: false, qualified: false, args_swapped: false });
             // exactly 2^n variants listed, one of them compiled out (first / middle / last): the missing
             // value must come back as Err, not panic
             for off in [0u128, m / 2, m] {
@@ -695,7 +696,7 @@ pub fn enum_corpus(tier: Tier, seed: u64) -> Vec<(usize, EnumDecl)> {
                 if variants.iter().all(|x| x.cfg == Cfg::Never) {
                     continue;
                 }
-                v.push(EnumDecl { name: "E".into(), bits: n, variants, exhaustive: Exh::Conditional, colon: false, qualified: false });
+                v.push(EnumDecl { name: "E".into(), bits: n, variants, exhaustive: Exh::Conditional, colon: false, qualified: false, args_swapped: false });
             }
         }
     }
